@@ -265,11 +265,11 @@ Definition main_cont (eda : bool) (g : graph) (ev : evaluator) (w : world)
   if negb (sdone (est ev)) && is_nil (stodo (est ev)) then (ev, w, [])
   else let '(ev1, w1, runs) := dispatch ev w in main_top eda g main_fuel ev1 w1 runs.
 
+(* Eval called (eval.go:80-88): a fresh state, then the loop *)
 Definition step_start (eda : bool) (g : graph) (ev : evaluator) (w : world)
   : evaluator * world * list nat :=
   if estarted ev then (ev, w, [])
-  else main_top eda g main_fuel
-         (mkE (eroots ev) true (est ev) (ewait ev) (edonec ev) (eres ev)) w [].
+  else main_top eda g main_fuel (mkE (eroots ev) true new_state [] [] None) w [].
 
 (* eval.go:138-159, enableMaxConsecutiveLost = true *)
 Definition bookkeep (w : world) (t : nat) : world :=
